@@ -7,7 +7,8 @@ COQ_FILES = ["Base/Sha256.v", "Corr/Run_Elect.v"]
 C04_SIGS = {"l2-not-exactly-one", "l2-announcer-without-eligible", "l2-winner-not-eligible",
             "l2-depends-on-map-order", "l2-shared-same-first-differs", "l2-elect-shared-nonfirst-address"}
 C12_SIGS = {"l2-moved-on-nonowner-loss", "l2-moved-between-survivors",
-            "l2-choice-not-function-of-names-and-address", "l2-depends-on-map-order"}
+            "l2-choice-not-function-of-names-and-address", "l2-depends-on-map-order",
+            "l2-shared-same-first-differs", "l2-elect-shared-nonfirst-address"}
 
 
 def run(ctx, prop, sigs):
